@@ -170,6 +170,15 @@ def _check(case):
             if raised is None and not (math.isinf(float(m.theta)) or float(m.theta) >= 1e12):
                 probs.append((fam, 'theta-is-not-the-calibration-of-tau', 'tau=1 theta=%r' % m.theta))
             continue
+        if v == 'refuse' and raised is not None:
+            # asked again with the same data, the object refuses again (whatever the first attempt left behind)
+            try:
+                m.fit(X.copy())
+                probs.append((fam, 'inadmissible-fit-accepted', 'second attempt with the same data: tau=%r theta=%r' % (exp_tau, m.theta)))
+            except ValueError:
+                pass
+            except Exception as ex:
+                probs.append((fam, 'refused-with-' + type(ex).__name__, 'second attempt'))
         if v == 'refuse':
             if raised is None:
                 probs.append((fam, 'inadmissible-fit-accepted', 'tau=%r theta=%r' % (exp_tau, m.theta)))
@@ -281,6 +290,10 @@ def run(ctx):
             X = rs.uniform(0.05, 0.95, size=(12, 2))
             X[:, 1] = (X[:, 0] + X[:, 1]) / 2
             X[int(rs.randint(12)), int(rs.randint(2))] = bad
+            if abs(hash(repr(bad))) % 2:
+                # the other column is far from uniform (clustered in a narrow band): only a warning is due for that
+                col = 1 - int(np.argwhere(X == bad)[0][1]) if np.isfinite(bad) else 0
+                X[:, col] = 0.4 + 0.05 * rs.uniform(size=12)
             ctx.case('oob|%s|%r' % (cls.__name__, bad))
             try:
                 cls().fit(X)
